@@ -73,6 +73,10 @@ def step (w : World) (toks : List String) : World × String :=
     match i.toNat?, b.toNat?, lip.toNat?, lport.toNat?, ip.toNat?, port.toNat? with
     | some i, some b, some lip, some lport, some ip, some port => (w.relan i b ⟨lip, lport⟩ ⟨ip, port⟩, "ok")
     | _, _, _, _, _, _ => bad
+  | ["restart", i] =>
+    match i.toNat? with
+    | some i => (w.restart i, "ok")
+    | none => bad
   | ["remove", i, k] =>
     match i.toNat?, k.toNat? with
     | some i, some k => (w.removePeerAt i k, "ok")
